@@ -154,7 +154,7 @@ Lemma dispatch_ctx ct except m name :
   dispatch (t_arms ct) (t_interests ct) name <> None
   /\ dispatch (t_arms ct) m name = (if keep (t_arms ct) m name then dispatch (t_arms ct) (t_interests ct) name else Some ASkip).
 Proof.
-  intros H. apply andb_prop in H as [H _].
+  intros H. apply andb_prop in H as [H _]. apply andb_prop in H as [H _].
   apply (dispatch_law (t_interests ct) (length (t_arms ct)) (t_arms ct) [] (le_n _) H).
 Qed.
 
